@@ -298,6 +298,7 @@ func (cl *call) recvLoop(cs grpc.ClientStream) {
 			tr.emit(r)
 			cl.mu.Unlock()
 		case "trl":
+			cl.begin("trl") // (Trailer never waits: pending at a census, it is reported and has no excuse)
 			md := cs.Trailer()
 			r := cl.base("STrl")
 			if md == nil {
@@ -305,7 +306,10 @@ func (cl *call) recvLoop(cs grpc.ClientStream) {
 			} else {
 				r.Md = mdCanon(md)
 			}
+			cl.mu.Lock()
+			cl.pend["trl"]--
 			tr.emit(r)
+			cl.mu.Unlock()
 		}
 	}
 }
